@@ -54,12 +54,15 @@ def handle (s : St) (line : String) : St × String :=
     match parseInt? r with
     | some r => (s, s!"ok {lockedRewardFromReward r}")
     | _ => (s, "bad-op")
-  | ["mset", owner, ben, quota, used, exp, bal, lf, pcd, ip, debt, et, table] =>
+  | ["mset", owner, ben, quota, used, exp, bal, lf, pcd, ip, debt, et, head, tail] =>
+    -- head: "-" (VestingFunds(None)) or "e:a"; tail: the list behind the tail CID
     let m : Option MinerFunds.State := do
-      let t ← parseList? (parsePair? parseInt? parseInt?) table
+      let t ← parseList? (parsePair? parseInt? parseInt?) tail
+      let fs : Funds ← if head = "-" then (if t.isEmpty then some none else none)
+        else (parsePair? parseInt? parseInt? head).map (fun h => some (h, t))
       pure { owner := ← parseNat? owner, beneficiary := ← parseNat? ben, quota := ← parseInt? quota,
              usedQuota := ← parseInt? used, expiration := ← parseInt? exp, balance := ← parseInt? bal,
-             ledger := { funds := save t, lockedFunds := ← parseInt? lf },
+             ledger := { funds := fs, lockedFunds := ← parseInt? lf },
              preCommitDeposits := ← parseInt? pcd, initialPledge := ← parseInt? ip,
              feeDebt := ← parseInt? debt, earlyTerminationsPending := ← parseBool? et }
     match m with
